@@ -141,6 +141,8 @@ def sec_rope(repo, c):
         c['ROPE_NEW_CHUNKS'] = 0
     else:
         raise TranslateError(f"{rel}: Rope::new body not recognised: {body}")
+
+def sec_slots_iter(repo, c):
     # ---- slots.rs: direction of rev_pos in the owning iterator's next_back
     rel = 'src/collections/rope/slots.rs'
     t = read(repo, rel)
@@ -176,7 +178,7 @@ def sec_features(repo, c):
         feats[mm.group(1)] = [x.strip().strip('"') for x in mm.group(2).split(',') if x.strip()]
     c['FEATURES'] = feats
 
-SECTIONS = [('ordered', sec_ordered), ('ordered_wire', sec_ordered_wire), ('rope', sec_rope), ('features', sec_features)]
+SECTIONS = [('ordered', sec_ordered), ('ordered_wire', sec_ordered_wire), ('rope', sec_rope), ('slots_iter', sec_slots_iter), ('features', sec_features)]
 
 def translate(repo):
     """returns (constants, errors-by-section)"""
@@ -204,8 +206,9 @@ def render(c, errs):
             for n in ('LEVENSHTEIN_CUTOFF', 'DELETE_COST', 'REPLACE_COST', 'INSERT_COST'))
     if 'rope' not in errs:
         files['ConstsRope.v'] = HDR + "".join(f"Definition {n} : nat := {nat(c[n])}.\n"
-            for n in ('MAX_SLOT_SIZE', 'BASE_SLOT_SIZE', 'UNDERSIZED_SLOT', 'FROM_ITER_TAKE', 'FROM_ITER_FULL', 'ROPE_NEW_CHUNKS')) + \
-            f"Definition REV_POS_DOWN : bool := {'true' if c['REV_POS_DOWN'] else 'false'}.\n"
+            for n in ('MAX_SLOT_SIZE', 'BASE_SLOT_SIZE', 'UNDERSIZED_SLOT', 'FROM_ITER_TAKE', 'FROM_ITER_FULL', 'ROPE_NEW_CHUNKS'))
+    if 'slots_iter' not in errs:
+        files['ConstsSlotsIter.v'] = HDR + f"Definition REV_POS_DOWN : bool := {'true' if c['REV_POS_DOWN'] else 'false'}.\n"
     if 'ordered_wire' not in errs:
         ov = ['Replace', 'Insert', 'Delete', 'Swap']
         files['ConstsOrderedWire.v'] = HDR + "(* nanoserde discriminants of the ordered change, order: Replace Insert Delete Swap *)\n" + "\n".join(
